@@ -214,6 +214,18 @@ impl<F: FixedChannelRegion> RegionHandler for FixedChannelPlan<F> {
                     // from. If the datarate bandwidth is 500 kHz, we must use
                     // channels 64..=71. Else, we must use 0-63
                     let bandwidth = F::datarates()[datarate as usize].as_ref().unwrap().bandwidth;
+                    // The data rate can change without the mask being re-validated (ADR
+                    // back-off steps from DR4 to DR3, the application may override it), so
+                    // the mask may enable no channel of the needed bandwidth. Fall back to
+                    // the default channels instead of sampling forever below.
+                    let any_enabled = if bandwidth == Bandwidth::_500KHz {
+                        (64..72).any(|i| self.channel_mask.is_enabled(i).unwrap())
+                    } else {
+                        (0..64).any(|i| self.channel_mask.is_enabled(i).unwrap())
+                    };
+                    if !any_enabled {
+                        self.channel_mask = Default::default();
+                    }
                     if bandwidth == Bandwidth::_500KHz {
                         let mut channel = (rng.next_u32() & 0b111) as u8;
                         // keep selecting a random channel until we find one that is enabled
